@@ -27,59 +27,59 @@ import (
 
 var c05mu sync.Mutex // math/rand global state and the global round robin are shared
 
-func c05Eval(f []string) (string, []string) {
-	if len(f) != 6 {
-		return "bad-case", nil
-	}
-	kind, poolS, robinS, keyS, randsS, seedS := f[0], f[1], f[2], f[3], f[4], f[5]
-	hosts := []string{}
-	if poolS != "" {
-		hosts = strings.Split(poolS, ",")
-	}
-	if len(hosts) == 0 {
-		return "bad-case", nil
-	}
+func c05NewUpstream(kind string, n int) (proxy.Upstream, proxy.HostPool, string) {
 	policy := kind
 	if kind == "header" || kind == "header_empty" {
 		policy = "header X-Key X-Key2"
 	}
 	var cfg strings.Builder
 	cfg.WriteString("proxy /")
-	for i := range hosts {
+	for i := 0; i < n; i++ {
 		fmt.Fprintf(&cfg, " h%d.test:80", i)
 	}
 	fmt.Fprintf(&cfg, " {\n policy %s\n}\n", policy)
 	ups, err := proxy.NewStaticUpstreams(casketfile.NewDispenser("Testfile", strings.NewReader(cfg.String())), "")
 	if err != nil || len(ups) != 1 {
-		return fmt.Sprintf("setup-error:%v", err), nil
+		return nil, nil, fmt.Sprintf("setup-error:%v", err)
 	}
-	up := ups[0]
-	defer up.Stop()
-	pool := proxy.VerifHosts(up)
-	if len(pool) != len(hosts) {
-		return "setup-error:pool", nil
+	pool := proxy.VerifHosts(ups[0])
+	if len(pool) != n {
+		return nil, nil, "setup-error:pool"
+	}
+	// identity of the configured backends, taken BEFORE any Select
+	orig := make(proxy.HostPool, n)
+	copy(orig, pool)
+	return ups[0], orig, ""
+}
+
+// c05Step sets the per-host state on the configured backends, performs one Select and
+// returns the index of the configured backend that was chosen.
+func c05Step(up proxy.Upstream, orig proxy.HostPool, kind, poolS, keyS, randsS, seedS string, robin *uint64, setRobin bool) (string, int) {
+	hosts := strings.Split(poolS, ",")
+	if len(hosts) != len(orig) {
+		return "bad-case", 0
 	}
 	nAvail := 0
 	for i, hs := range hosts {
 		p := strings.Split(hs, "/")
 		c, _ := strconv.ParseInt(p[1], 10, 64)
 		m, _ := strconv.ParseInt(p[2], 10, 64)
-		pool[i].Conns = c
-		pool[i].MaxConns = m
+		atomic.StoreInt64(&orig[i].Conns, c)
+		orig[i].MaxConns = m
+		atomic.StoreInt32(&orig[i].Unhealthy, 0)
+		atomic.StoreInt32(&orig[i].Fails, 0)
 		switch p[0] {
 		case "1":
-			atomic.StoreInt32(&pool[i].Unhealthy, 1)
+			atomic.StoreInt32(&orig[i].Unhealthy, 1)
 		case "2":
-			atomic.StoreInt32(&pool[i].Fails, 1)
+			atomic.StoreInt32(&orig[i].Fails, 1)
 		}
-		if pool[i].Available() {
+		if orig[i].Available() {
 			nAvail++
 		}
 	}
-	robin, _ := strconv.ParseUint(robinS, 10, 32)
 	seed, _ := strconv.ParseInt(seedS, 10, 64)
 	key := hx.UnHS(keyS)
-
 	req, _ := http.NewRequest("GET", "http://example.test/", nil)
 	req.RemoteAddr = "192.0.2.1:4000"
 	req.RequestURI = "/"
@@ -94,63 +94,119 @@ func c05Eval(f []string) (string, []string) {
 		req.RequestURI = key
 	case "header":
 		// the value is split over two header names to exercise the concatenation
-		req.Header.Set("X-Key", key[:len(key)/2])
-		req.Header.Set("X-Key2", key[len(key)/2:])
+		req.Header["X-Key"] = []string{key[:len(key)/2]}
+		req.Header["X-Key2"] = []string{key[len(key)/2:]}
 	}
-
-	c05mu.Lock()
-	defer c05mu.Unlock()
 	var rr *proxy.RoundRobin
 	switch kind {
 	case "round_robin":
 		rr, _ = proxy.VerifPolicy(up).(*proxy.RoundRobin)
 		if rr == nil {
-			return "setup-error:policy", nil
+			return "setup-error:policy", 0
 		}
 	case "header_empty":
 		rr = proxy.VerifGlobalRobin()
 	}
-	if rr != nil {
-		proxy.VerifSetRobin(rr, uint32(robin))
+	if rr != nil && setRobin {
+		proxy.VerifSetRobin(rr, uint32(*robin))
 	}
 	// the draws Select will consume are the first ones after seeding
 	rand.Seed(seed)
-	var want []string
 	if randsS != "" {
-		want = strings.Split(randsS, ",")
-	}
-	for _, w := range want {
-		if strconv.Itoa(rand.Int()) != w {
-			return "bad-case:rands do not belong to seed", nil
+		for _, w := range strings.Split(randsS, ",") {
+			if strconv.Itoa(rand.Int()) != w {
+				return "bad-case:rands do not belong to seed", 0
+			}
 		}
 	}
 	rand.Seed(seed)
 	h := up.Select(req)
-	after := uint32(robin)
 	if rr != nil {
-		after = proxy.VerifRobin(rr)
+		*robin = uint64(proxy.VerifRobin(rr))
 	}
 	choice := "-"
 	if h != nil {
-		for i := range pool {
-			if pool[i] == h {
+		choice = "foreign-host"
+		for i := range orig {
+			if orig[i] == h {
 				choice = strconv.Itoa(i)
 			}
 		}
-		if choice == "-" {
-			choice = "foreign-host"
-		}
 	}
-	tags := []string{kind, fmt.Sprintf("n=%d", len(pool))}
+	return choice, nAvail
+}
+
+func c05Eval(f []string) (string, []string) {
+	if len(f) != 6 {
+		return "bad-case", nil
+	}
+	kind, poolS, robinS, keyS, randsS, seedS := f[0], f[1], f[2], f[3], f[4], f[5]
+	if poolS == "" {
+		return "bad-case", nil
+	}
+	n := len(strings.Split(poolS, ","))
+	up, orig, e := c05NewUpstream(kind, n)
+	if e != "" {
+		return e, nil
+	}
+	defer up.Stop()
+	robin, _ := strconv.ParseUint(robinS, 10, 32)
+	c05mu.Lock()
+	defer c05mu.Unlock()
+	choice, nAvail := c05Step(up, orig, kind, poolS, keyS, randsS, seedS, &robin, true)
+	tags := []string{kind, fmt.Sprintf("n=%d", n)}
 	switch {
 	case nAvail == 0:
 		tags = append(tags, "trivial-none-available")
-	case nAvail == len(pool):
+	case nAvail == n:
 		tags = append(tags, "trivial-all-available")
 	default:
 		tags = append(tags, "some-unavailable")
 	}
-	return choice + "\t" + strconv.FormatUint(uint64(after), 10), tags
+	return choice + "\t" + strconv.FormatUint(robin, 10), tags
+}
+
+// c05.seq  kind  robin0  steps      steps = ';' separated  pool|keyhex|rands|seed
+// One upstream, several Selects with the host states changing in between (state carried by
+// the code between calls — the round-robin counter, anything Select does to the pool — is
+// inside the tie).  out = comma list of choices TAB final counter.
+func c05SeqEval(f []string) (string, []string) {
+	if len(f) != 3 {
+		return "bad-case", nil
+	}
+	kind := f[0]
+	steps := strings.Split(f[2], ";")
+	n := len(strings.Split(strings.Split(steps[0], "|")[0], ","))
+	up, orig, e := c05NewUpstream(kind, n)
+	if e != "" {
+		return e, nil
+	}
+	defer up.Stop()
+	robin, _ := strconv.ParseUint(f[1], 10, 32)
+	c05mu.Lock()
+	defer c05mu.Unlock()
+	var outs []string
+	recovered := false
+	prevAvail := -1
+	for i, st := range steps {
+		p := strings.Split(st, "|")
+		if len(p) != 4 {
+			return "bad-case", nil
+		}
+		ch, nAvail := c05Step(up, orig, kind, p[0], p[1], p[2], p[3], &robin, i == 0)
+		if prevAvail >= 0 && nAvail > prevAvail {
+			recovered = true
+		}
+		prevAvail = nAvail
+		outs = append(outs, ch)
+	}
+	tags := []string{kind, fmt.Sprintf("steps=%d", len(steps))}
+	if recovered {
+		tags = append(tags, "a-backend-recovered")
+	} else {
+		tags = append(tags, "trivial-no-recovery")
+	}
+	return strings.Join(outs, ",") + "\t" + strconv.FormatUint(robin, 10), tags
 }
 
 func c05Rands(seed int64, n int) string {
@@ -162,6 +218,54 @@ func c05Rands(seed int64, n int) string {
 		xs[i] = strconv.Itoa(rand.Int())
 	}
 	return strings.Join(xs, ",")
+}
+
+// c05BoundaryKeys returns printable 6-byte keys whose FNV-1a hash is one of the targets
+// (values next to 0 and 2^32, where uint32 index arithmetic can wrap), found by a
+// meet-in-the-middle over 3 forward and 3 backward bytes.
+var c05BoundaryOnce sync.Once
+var c05Boundary []string
+
+func c05BoundaryKeys() []string {
+	c05BoundaryOnce.Do(func() {
+		const prime, inv = 16777619, 899433627 // inv = prime^-1 mod 2^32
+		alpha := []byte("abcdefghijklmnopqrstuvwxyzABCDEFGHIJKLMNOPQRSTUVWXYZ0123456789-_.~")
+		fwd := map[uint32][3]byte{}
+		for _, a := range alpha {
+			for _, b := range alpha {
+				for _, c := range alpha {
+					h := uint32(2166136261)
+					h = (h ^ uint32(a)) * prime
+					h = (h ^ uint32(b)) * prime
+					h = (h ^ uint32(c)) * prime
+					fwd[h] = [3]byte{a, b, c}
+				}
+			}
+		}
+		var targets []uint32
+		for d := uint32(0); d < 10; d++ {
+			targets = append(targets, 0xFFFFFFFF-d, d)
+		}
+		for _, t := range targets {
+			found := 0
+			for _, f := range alpha {
+				for _, e := range alpha {
+					for _, d := range alpha {
+						// undo the last three steps: h_prev = (h * inv) ^ byte
+						h := t
+						h = (h * inv) ^ uint32(f)
+						h = (h * inv) ^ uint32(e)
+						h = (h * inv) ^ uint32(d)
+						if p, ok := fwd[h]; ok && found < 2 {
+							c05Boundary = append(c05Boundary, string([]byte{p[0], p[1], p[2], d, e, f}))
+							found++
+						}
+					}
+				}
+			}
+		}
+	})
+	return c05Boundary
 }
 
 var c05Kinds = []string{"random", "least_conn", "round_robin", "first", "ip_hash", "uri_hash", "header", "header_empty"}
@@ -228,6 +332,21 @@ func c05Gen(g *hx.Gen) {
 			}
 		}
 	}
+	// keys whose hash sits next to 0 / 2^32: every single-survivor pool of 2..7 (non powers of two included)
+	for _, key := range c05BoundaryKeys() {
+		for n := 2; n <= 7; n++ {
+			for up := 0; up < n; up++ {
+				hosts := make([]string, n)
+				for i := range hosts {
+					hosts[i] = "1/0/0"
+				}
+				hosts[up] = "0/0/0"
+				for _, kind := range []string{"uri_hash", "header"} {
+					g.Case(kind, strings.Join(hosts, ","), "0", hx.HS(key), "", "0")
+				}
+			}
+		}
+	}
 	// random: larger pools, random states, counters near the uint32 wrap
 	N := 3000
 	if g.Thorough() {
@@ -285,8 +404,70 @@ func c05Gen(g *hx.Gen) {
 	}
 }
 
+func c05RandomPool(g *hx.Gen, n int, pUp int) string {
+	hosts := make([]string, n)
+	for i := range hosts {
+		if g.Rng.Intn(4) < pUp {
+			c := g.Rng.Intn(6)
+			m := 0
+			if g.Rng.Bool() {
+				m = c + 1 + g.Rng.Intn(3)
+			}
+			hosts[i] = fmt.Sprintf("0/%d/%d", c, m)
+		} else {
+			switch g.Rng.Intn(3) {
+			case 0:
+				hosts[i] = "1/0/0"
+			case 1:
+				hosts[i] = fmt.Sprintf("2/%d/0", g.Rng.Intn(3))
+			default:
+				c := 1 + g.Rng.Intn(4)
+				hosts[i] = fmt.Sprintf("0/%d/%d", c+g.Rng.Intn(2), c)
+			}
+		}
+	}
+	return strings.Join(hosts, ",")
+}
+
+func c05SeqGen(g *hx.Gen) {
+	N := 1500
+	if g.Thorough() {
+		N = 20000
+	}
+	for it := 0; it < N; it++ {
+		kind := hx.Pick(g.Rng, c05Kinds)
+		n := 2 + g.Rng.Intn(5)
+		k := 2 + g.Rng.Intn(4)
+		steps := make([]string, k)
+		for s := range steps {
+			pool := c05RandomPool(g, n, 1+g.Rng.Intn(4))
+			key := ""
+			switch kind {
+			case "ip_hash":
+				key = fmt.Sprintf("10.%d.%d.%d", g.Rng.Intn(256), g.Rng.Intn(256), g.Rng.Intn(256))
+			case "uri_hash":
+				key = fmt.Sprintf("/p/%d", g.Rng.Intn(1000))
+			case "header":
+				key = fmt.Sprintf("user-%d", g.Rng.Intn(1000))
+			}
+			seed := int64(g.Rng.Intn(1 << 30))
+			rands := ""
+			if kind == "random" || kind == "least_conn" {
+				rands = c05Rands(seed, n)
+			}
+			steps[s] = pool + "|" + hx.HS(key) + "|" + rands + "|" + strconv.FormatInt(seed, 10)
+		}
+		robin := uint64(g.Rng.Intn(20))
+		if g.Rng.Chance(1, 5) {
+			robin = 4294967295 - uint64(g.Rng.Intn(10))
+		}
+		g.Case(kind, strconv.FormatUint(robin, 10), strings.Join(steps, ";"))
+	}
+}
+
 func init() {
 	hx.Register(&hx.Stream{ID: "C05", Name: "c05.select", Gen: c05Gen, Eval: c05Eval})
+	hx.Register(&hx.Stream{ID: "C05", Name: "c05.seq", Gen: c05SeqGen, Eval: c05SeqEval})
 	hx.Register(&hx.Stream{ID: "C05", Name: "c05.fnv",
 		Gen: func(g *hx.Gen) {
 			g.Case("")
